@@ -11,12 +11,26 @@
 //	    unbuffered channel);
 //	(A) a fixed set of graphs x every stop point x every stop action x every
 //	    schedule of producer / consumer / canceller with at most D deviations.
+//
+// Boundary audit (classes outside the first alphabets): every 7th graph of (B) is
+// repeated in one class (ids at the 31/32/40/53/63-bit boundaries of both signs,
+// member-list layouts, relation id 0 without history, invisible versions, empty
+// histories, datasource errors at call 1..4, three orderings on one datasource);
+// graphs on 4 ids; "shapes" far beyond the bound (depth around the capacity of
+// the walker's path slice, fan-out, versions, request lists of > 1000 ids);
+// every drain ends with Next twice, Close twice, Next. (A) has four more graphs,
+// three more stop kinds (Close / cancel of the grand-parent from a second
+// thread, context cancelled before New) and a datasource that blocks until its
+// context is cancelled; its oracle judges the emitted prefix with the oracle of
+// (B), a complete emission when nothing had stopped the walk, and that no
+// datasource call arrives after a Close call has returned.
 package main
 
 import (
 	"context"
 	"errors"
 	"fmt"
+	"math"
 	"sort"
 	"strings"
 	"time"
@@ -42,12 +56,71 @@ type graph struct {
 	// member refs): relation ids are 64-bit numbers, the ordering must not depend
 	// on them fitting the 40 ref bits of a packed feature id.
 	Off int64
+	// Inv: which versions are NOT visible (deleted versions). The property speaks
+	// of "any of its versions": members of invisible versions count like all
+	// others. 0 none, 1 every version, 2 the first version only, 3 the last only.
+	Inv int
+	// Dup: every version lists its relation members twice (ascending, then
+	// descending): members repeated inside one version.
+	Dup bool
+	// Rev: relation members are listed in descending order of their ids.
+	Rev bool
+	// Odd: every version also carries members that are NOT relation members but
+	// whose refs equal relation ids (types "", "changeset", "bounds", "Relation",
+	// "relations", "node", "way") and - when Zero is set - a relation member
+	// with ref 0 (the zero value; it has no history).
+	Odd bool
+	// Zero: this internal id (it must not have a history) is handed to the
+	// library as relation id 0.
+	Zero int
+	// Empty: ids for which the datasource answers with an empty history and a
+	// nil error. The property does not decide whether such an id "has a
+	// history": its emission is allowed and not required (not judged).
+	Empty map[int]bool
+	// Label replaces the listing of the histories in scenario names (large graphs).
+	Label string
+}
+
+// ext / intern translate between the ids of the model and the ids the library sees.
+func (g graph) ext(id int) int64 {
+	if g.Zero != 0 && id == g.Zero {
+		return 0
+	}
+	return int64(id) + g.Off
+}
+
+func (g graph) intern(e int64) int {
+	if g.Zero != 0 && e == 0 {
+		return g.Zero
+	}
+	return int(e - g.Off)
 }
 
 func (g graph) String() string {
 	var parts []string
 	if g.Off != 0 {
 		parts = append(parts, fmt.Sprintf("ids+%d", g.Off))
+	}
+	if g.Inv != 0 {
+		parts = append(parts, fmt.Sprintf("invisible-mode-%d", g.Inv))
+	}
+	if g.Dup {
+		parts = append(parts, "members-twice")
+	}
+	if g.Rev {
+		parts = append(parts, "members-descending")
+	}
+	if g.Odd {
+		parts = append(parts, "odd-members")
+	}
+	if g.Zero != 0 {
+		parts = append(parts, fmt.Sprintf("id%d-is-0", g.Zero))
+	}
+	if len(g.Empty) > 0 {
+		parts = append(parts, fmt.Sprintf("empty-history%v", sortedKeys(g.Empty)))
+	}
+	if g.Label != "" {
+		return strings.Join(append(parts, g.Label), " ")
 	}
 	for id := 1; id <= g.N; id++ {
 		vs, ok := g.Versions[id]
@@ -71,27 +144,66 @@ type ds struct {
 	g      graph
 	calls  int
 	failAt int // 1-based call index that fails with errBroken; 0 = never
-	yield  bool
+	// failWithData: the failing call returns the history next to the error
+	failWithData bool
+	// stallAt: 1-based call index that blocks until the context handed to the
+	// datasource is cancelled and then returns that context's error (a remote
+	// datasource that honours its context); 0 = never
+	stallAt int
+	yield   bool
+	// closed is set by the driver when a Close call has returned: the walker
+	// goroutine has ended then, so no datasource call may arrive any more.
+	closed bool
+	late   int
 }
 
-func (d *ds) RelationHistory(_ context.Context, id osm.RelationID) (osm.Relations, error) {
+func (d *ds) RelationHistory(ctx context.Context, ext osm.RelationID) (osm.Relations, error) {
 	if d.yield {
 		vsched.Yield("datasource")
 	}
 	d.calls++
-	if d.failAt != 0 && d.calls == d.failAt {
+	if d.closed {
+		d.late++
+	}
+	if d.stallAt != 0 && d.calls == d.stallAt {
+		vsched.DoneChan(ctx).Recv()
+		return nil, ctx.Err()
+	}
+	fail := d.failAt != 0 && d.calls == d.failAt
+	if fail && !d.failWithData {
 		return nil, errBroken
 	}
-	ext := id
-	id -= osm.RelationID(d.g.Off)
-	vs, ok := d.g.Versions[int(id)]
-	if !ok || int64(int(id)) != int64(id) {
+	g := d.g
+	id := g.intern(int64(ext))
+	if g.ext(id) != int64(ext) {
+		return nil, errNotFound
+	}
+	if g.Empty[id] {
+		if fail {
+			return osm.Relations{}, errBroken
+		}
+		return osm.Relations{}, nil
+	}
+	vs, ok := g.Versions[id]
+	if !ok {
+		if fail {
+			return nil, errBroken
+		}
 		return nil, errNotFound
 	}
 	var out osm.Relations
 	for i, refs := range vs {
-		r := &osm.Relation{ID: ext, Version: i + 1, Visible: true, Timestamp: time.Unix(int64(1000*(i+1)), 0)}
-		if ws, ok := d.g.Ways[int(id)]; ok {
+		vis := true
+		switch g.Inv {
+		case 1:
+			vis = false
+		case 2:
+			vis = i != 0
+		case 3:
+			vis = i != len(vs)-1
+		}
+		r := &osm.Relation{ID: ext, Version: i + 1, Visible: vis, Timestamp: time.Unix(int64(1000*(i+1)), 0)}
+		if ws, ok := g.Ways[id]; ok {
 			// typed variant: only the listed way members, then the relation members
 			for _, w := range ws[i] {
 				r.Members = append(r.Members, osm.Member{Type: osm.TypeWay, Ref: int64(w), Role: "w"})
@@ -99,10 +211,32 @@ func (d *ds) RelationHistory(_ context.Context, id osm.RelationID) (osm.Relation
 		} else {
 			r.Members = append(r.Members, osm.Member{Type: osm.TypeNode, Ref: int64(refs0(refs))}, osm.Member{Type: osm.TypeWay, Ref: 2})
 		}
-		for _, ref := range refs {
-			r.Members = append(r.Members, osm.Member{Type: osm.TypeRelation, Ref: int64(ref) + d.g.Off, Role: "sub"})
+		if g.Odd {
+			for x := 1; x <= g.N && x <= 4; x++ {
+				for _, t := range []osm.Type{"", osm.TypeChangeset, osm.TypeBounds, "Relation", "relations", osm.TypeNode, osm.TypeWay} {
+					r.Members = append(r.Members, osm.Member{Type: t, Ref: g.ext(x), Role: "sub"})
+				}
+			}
+			if g.Zero != 0 {
+				r.Members = append(r.Members, osm.Member{Type: osm.TypeRelation})
+			}
+		}
+		order := append([]int{}, refs...)
+		if g.Rev {
+			sort.Sort(sort.Reverse(sort.IntSlice(order)))
+		}
+		if g.Dup {
+			for j := len(refs) - 1; j >= 0; j-- {
+				order = append(order, order[j])
+			}
+		}
+		for _, ref := range order {
+			r.Members = append(r.Members, osm.Member{Type: osm.TypeRelation, Ref: g.ext(ref), Role: "sub"})
 		}
 		out = append(out, r)
+	}
+	if fail {
+		return out, errBroken
 	}
 	return out, nil
 }
@@ -150,22 +284,30 @@ func (g graph) acyclic() bool {
 	return true
 }
 
-// checkEmission judges a complete drain.
-func checkEmission(g graph, req []int, got []int) (string, string) {
+// checkPrefix judges what an iteration emitted up to any point (a complete
+// drain, or one cut short by Close, cancellation or a datasource error): no id
+// twice, no id without history, nothing that is neither requested nor
+// reachable from a requested id, and - on acyclic graphs - every emitted
+// relation after ALL relations reachable from it (a relation whose descendant
+// was not emitted yet must not have been emitted either). complete adds: every
+// requested id with a history was emitted.
+func checkPrefix(g graph, req []int, got []int, complete bool) (string, string) {
 	pos := map[int]int{}
 	for i, id := range got {
 		if _, dup := pos[id]; dup {
-			return "emitted-twice", fmt.Sprintf("id %d emitted twice: %v", id, got)
+			return "emitted-twice", fmt.Sprintf("id %d emitted twice: %v", id, short(got))
 		}
 		pos[id] = i
-		if _, has := g.Versions[id]; !has {
-			return "emitted-without-history", fmt.Sprintf("id %d has no history but was emitted: %v", id, got)
+		if _, has := g.Versions[id]; !has && !g.Empty[id] {
+			return "emitted-without-history", fmt.Sprintf("id %d has no history but was emitted: %v", id, short(got))
 		}
 	}
-	for _, id := range req {
-		if _, has := g.Versions[id]; has {
-			if _, ok := pos[id]; !ok {
-				return "requested-not-emitted", fmt.Sprintf("requested id %d has a history but was not emitted: %v", id, got)
+	if complete {
+		for _, id := range req {
+			if _, has := g.Versions[id]; has {
+				if _, ok := pos[id]; !ok {
+					return "requested-not-emitted", fmt.Sprintf("requested id %d has a history but was not emitted: %v", id, short(got))
+				}
 			}
 		}
 	}
@@ -177,19 +319,31 @@ func checkEmission(g graph, req []int, got []int) (string, string) {
 			allowed[y] = true
 		}
 	}
+	if len(g.Empty) > 0 {
+		// ids answered with an empty history are leaves that may or may not be emitted
+		for _, id := range sortedKeys(allowed) {
+			for _, refs := range g.Versions[id] {
+				for _, y := range refs {
+					if g.Empty[y] {
+						allowed[y] = true
+					}
+				}
+			}
+		}
+	}
 	for _, id := range got {
 		if !allowed[id] {
-			return "emitted-unrelated", fmt.Sprintf("id %d is neither requested nor reachable: %v", id, got)
+			return "emitted-unrelated", fmt.Sprintf("id %d is neither requested nor reachable: %v", id, short(got))
 		}
 	}
 	if g.acyclic() {
 		for _, id := range got {
 			for _, y := range sortedKeys(g.reach(id)) {
 				if _, ok := pos[y]; !ok {
-					return "child-missing", fmt.Sprintf("relation %d emitted but its descendant %d never: %v", id, y, got)
+					return "child-missing", fmt.Sprintf("relation %d emitted but its descendant %d never: %v", id, y, short(got))
 				}
 				if pos[y] > pos[id] {
-					return "child-after-parent", fmt.Sprintf("relation %d emitted before %d which it references: %v", id, y, got)
+					return "child-after-parent", fmt.Sprintf("relation %d emitted before %d which it references: %v", id, y, short(got))
 				}
 			}
 		}
@@ -197,34 +351,107 @@ func checkEmission(g graph, req []int, got []int) (string, string) {
 	return "", ""
 }
 
+// checkEmission judges a complete drain.
+func checkEmission(g graph, req []int, got []int) (string, string) {
+	return checkPrefix(g, req, got, true)
+}
+
+func short(l []int) string {
+	if len(l) > 40 {
+		return fmt.Sprintf("%v ... (%d ids)", l[:40], len(l))
+	}
+	return fmt.Sprint(l)
+}
+
 func relIDs(g graph, ids []int) []osm.RelationID {
+	if ids == nil {
+		return nil // a nil request list (the menu's empty list is non-nil)
+	}
 	out := make([]osm.RelationID, len(ids))
 	for i, id := range ids {
-		out[i] = osm.RelationID(int64(id) + g.Off)
+		out[i] = osm.RelationID(g.ext(id))
 	}
 	return out
 }
 
+func reqString(req []int) string {
+	if req == nil {
+		return "<nil>"
+	}
+	if len(req) > 12 {
+		h := uint64(14695981039346656037)
+		for _, x := range req {
+			h = (h ^ uint64(x)) * 1099511628211
+		}
+		return fmt.Sprintf("[%d ids %v... #%x]", len(req), req[:8], h&0xffffff)
+	}
+	return fmt.Sprint(req)
+}
+
+// drainOpt: variations of the drain driver.
+type drainOpt struct {
+	// errEvery: Err() before every Next and RelationID() twice after it
+	errEvery bool
+	// failAt / failWithData: see ds
+	failAt       int
+	failWithData bool
+}
+
 // drainScenario: part (B).
 func drainScenario(g graph, req []int) vexplore.Scenario {
-	name := fmt.Sprintf("drain graph{%s} request%v", g, req)
+	return drainScenarioOpt(g, req, drainOpt{})
+}
+
+func drainScenarioOpt(g graph, req []int, opt drainOpt) vexplore.Scenario {
+	name := fmt.Sprintf("drain graph{%s} request%s", g, reqString(req))
+	if opt.errEvery {
+		name += " Err-before-every-Next"
+	}
+	if opt.failAt != 0 {
+		name += fmt.Sprintf(" datasource-error-at-call-%d", opt.failAt)
+		if opt.failWithData {
+			name += "-with-data"
+		}
+	}
 	return vexplore.Scenario{Name: name, Family: "drain", Bound: 0, OnlyChildBelow: true, New: func() (func(), func(*vsched.Outcome) ([]vexplore.Finding, string, bool)) {
 		var got []int
-		var finalErr error
+		var finalErr, midErr error
 		budgetHit := false
 		closed := false
+		unstable := false
+		var again1, again2, afterClose bool
+		d := &ds{g: g, failAt: opt.failAt, failWithData: opt.failWithData}
 		main := func() {
-			d := &ds{g: g}
 			o := annotate.NewChildFirstOrdering(context.Background(), relIDs(g, req), d)
-			for o.Next() {
-				got = append(got, int(int64(o.RelationID())-g.Off))
+			for {
+				if opt.errEvery {
+					if e := o.Err(); e != nil && midErr == nil {
+						midErr = e
+					}
+				}
+				if !o.Next() {
+					break
+				}
+				id := o.RelationID()
+				if opt.errEvery && (o.RelationID() != id || o.RelationID() != id) {
+					unstable = true
+				}
+				got = append(got, g.intern(int64(id)))
 				if len(got) > 10*(g.N+1) {
 					budgetHit = true
 					break
 				}
 			}
 			finalErr = o.Err()
+			if !budgetHit {
+				// Next after it returned false, twice
+				again1 = o.Next()
+				again2 = o.Next()
+			}
 			o.Close()
+			d.closed = true
+			o.Close() // Close twice
+			afterClose = o.Next()
 			closed = true
 		}
 		check := func(out *vsched.Outcome) ([]vexplore.Finding, string, bool) {
@@ -233,18 +460,115 @@ func drainScenario(g graph, req []int) vexplore.Scenario {
 			if out.Kind != "ok" {
 				return []vexplore.Finding{{"drain/" + out.Kind, fmt.Sprintf("execution ended in %s: %s", out.Kind, out.Detail)}}, "", nontrivial
 			}
+			failed := opt.failAt != 0 && d.calls >= opt.failAt
+			if failed {
+				nontrivial = true
+			}
 			if budgetHit {
-				fs = append(fs, vexplore.Finding{"drain/never-ends", fmt.Sprintf("more than %d emissions: %v", 10*(g.N+1), got)})
-			} else if k, m := checkEmission(g, req, got); k != "" {
+				fs = append(fs, vexplore.Finding{"drain/never-ends", fmt.Sprintf("more than %d emissions: %v", 10*(g.N+1), short(got))})
+			} else if k, m := checkPrefix(g, req, got, !failed); k != "" {
 				fs = append(fs, vexplore.Finding{"drain/" + k, m})
 			}
-			if finalErr != nil && !budgetHit {
-				fs = append(fs, vexplore.Finding{"drain/error-after-complete-walk", fmt.Sprintf("Err() = %v after a complete walk", finalErr)})
+			if !budgetHit {
+				if failed {
+					if finalErr == nil {
+						fs = append(fs, vexplore.Finding{"drain/err-nil-after-error", fmt.Sprintf("Err() is nil although datasource call %d failed", opt.failAt)})
+					}
+				} else {
+					if finalErr != nil {
+						fs = append(fs, vexplore.Finding{"drain/error-after-complete-walk", fmt.Sprintf("Err() = %v after a complete walk", finalErr)})
+					}
+					if midErr != nil {
+						fs = append(fs, vexplore.Finding{"drain/error-during-healthy-walk", fmt.Sprintf("Err() = %v between two Next calls of a walk that nothing disturbed", midErr)})
+					}
+				}
+			}
+			if unstable {
+				fs = append(fs, vexplore.Finding{"drain/relation-id-unstable", "RelationID() changed between two calls without a Next in between"})
+			}
+			if again1 || again2 {
+				fs = append(fs, vexplore.Finding{"drain/next-true-after-end", "Next returned true after it had returned false"})
+			}
+			if afterClose {
+				fs = append(fs, vexplore.Finding{"drain/next-true-after-close", "Next returned true after Close"})
+			}
+			if d.late > 0 {
+				fs = append(fs, vexplore.Finding{"drain/datasource-call-after-close", fmt.Sprintf("%d datasource call(s) arrived after Close had returned: the walker goroutine had not ended", d.late)})
 			}
 			if !closed {
 				fs = append(fs, vexplore.Finding{"drain/close-did-not-return", "Close did not return"})
 			}
-			return fs, fmt.Sprint(got), nontrivial
+			return fs, short(got), nontrivial
+		}
+		return main, check
+	}}
+}
+
+// twinScenario: three orderings over ONE datasource and one parent context. A is
+// closed after its first emission while B is in the middle of its walk, B is
+// drained completely; C is created after both were closed and drained too.
+// Nothing of one ordering (visited set, context, goroutine) may leak into another.
+func twinScenario(g graph, reqA, reqB []int) vexplore.Scenario {
+	name := fmt.Sprintf("twin graph{%s} A=request%s closed early, B=request%s, then C=request%s", g, reqString(reqA), reqString(reqB), reqString(reqA))
+	return vexplore.Scenario{Name: name, Family: "drain-twin", Bound: 0, OnlyChildBelow: true, New: func() (func(), func(*vsched.Outcome) ([]vexplore.Finding, string, bool)) {
+		var gotA, gotB, gotC []int
+		var errB, errC error
+		done := false
+		lim := 10 * (g.N + 1)
+		main := func() {
+			d := &ds{g: g}
+			parent, cancel := vsched.WithCancel(context.Background())
+			a := annotate.NewChildFirstOrdering(parent, relIDs(g, reqA), d)
+			b := annotate.NewChildFirstOrdering(parent, relIDs(g, reqB), d)
+			bMore := b.Next()
+			if bMore {
+				gotB = append(gotB, g.intern(int64(b.RelationID())))
+			}
+			if a.Next() {
+				gotA = append(gotA, g.intern(int64(a.RelationID())))
+			}
+			a.Close()
+			for bMore && len(gotB) <= lim {
+				if bMore = b.Next(); bMore {
+					gotB = append(gotB, g.intern(int64(b.RelationID())))
+				}
+			}
+			errB = b.Err()
+			b.Close()
+			c := annotate.NewChildFirstOrdering(parent, relIDs(g, reqA), d)
+			for len(gotC) <= lim && c.Next() {
+				gotC = append(gotC, g.intern(int64(c.RelationID())))
+			}
+			errC = c.Err()
+			c.Close()
+			cancel()
+			done = true
+		}
+		check := func(out *vsched.Outcome) ([]vexplore.Finding, string, bool) {
+			var fs []vexplore.Finding
+			if out.Kind != "ok" {
+				return []vexplore.Finding{{"twin/" + out.Kind, fmt.Sprintf("execution ended in %s: %s", out.Kind, out.Detail)}}, "", true
+			}
+			if !done {
+				return []vexplore.Finding{{"twin/did-not-finish", "the driver did not finish"}}, "", true
+			}
+			if k, m := checkPrefix(g, reqA, gotA, false); k != "" {
+				fs = append(fs, vexplore.Finding{"twin/A/" + k, m})
+			}
+			if len(gotB) > lim || len(gotC) > lim {
+				fs = append(fs, vexplore.Finding{"twin/never-ends", fmt.Sprintf("more than %d emissions: B %v C %v", lim, short(gotB), short(gotC))})
+				return fs, "", true
+			}
+			if k, m := checkPrefix(g, reqB, gotB, true); k != "" {
+				fs = append(fs, vexplore.Finding{"twin/B/" + k, "ordering B (another ordering on the same datasource and parent context was closed meanwhile): " + m})
+			}
+			if k, m := checkPrefix(g, reqA, gotC, true); k != "" {
+				fs = append(fs, vexplore.Finding{"twin/C/" + k, "ordering C (created after two orderings on the same datasource were closed): " + m})
+			}
+			if errB != nil || errC != nil {
+				fs = append(fs, vexplore.Finding{"twin/error-after-complete-walk", fmt.Sprintf("Err() after complete walks: B %v, C %v", errB, errC)})
+			}
+			return fs, fmt.Sprintf("%v|%v|%v", short(gotA), short(gotB), short(gotC)), len(gotB)+len(gotC) >= 2
 		}
 		return main, check
 	}}
@@ -255,31 +579,62 @@ const (
 	stopCancelSelf
 	stopCancelOther
 	stopDSError
+	stopCloseOther   // a second thread calls Close while the consumer drains
+	stopCancelGrand  // a second thread cancels the grand-parent of the context given to the ordering
+	stopPreCancelled // the context is already cancelled when the ordering is created
 )
 
-var stopNames = []string{"Close", "cancel-from-consumer", "cancel-from-second-thread", "datasource-error"}
+var stopNames = []string{"Close", "cancel-from-consumer", "cancel-from-second-thread", "datasource-error",
+	"Close-from-second-thread", "cancel-grandparent-from-second-thread", "context-cancelled-before-New"}
 
-// stopScenario: part (A).
-func stopScenario(gname string, g graph, req []int, k, stop, bound int) vexplore.Scenario {
-	name := fmt.Sprintf("stop graph=%s request%v after %d Next by %s", gname, req, k, stopNames[stop])
-	return vexplore.Scenario{Name: name, Family: "stop/" + stopNames[stop], Bound: bound, New: func() (func(), func(*vsched.Outcome) ([]vexplore.Finding, string, bool)) {
+// stopScenario: part (A). stall != 0: datasource call number stall blocks until
+// the context it was given is cancelled (only with the second-thread stops: the
+// consumer is blocked in Next meanwhile).
+func stopScenario(gname string, g graph, req []int, k, stop, bound, stall int) vexplore.Scenario {
+	name := fmt.Sprintf("stop graph=%s request%s after %d Next by %s", gname, reqString(req), k, stopNames[stop])
+	fam := "stop/" + stopNames[stop]
+	if stall != 0 {
+		name = fmt.Sprintf("stop graph=%s request%s datasource call %d blocks until its context is cancelled, %s", gname, reqString(req), stall, stopNames[stop])
+		fam = "stop/stalled-datasource+" + stopNames[stop]
+	}
+	return vexplore.Scenario{Name: name, Family: fam, Bound: bound, New: func() (func(), func(*vsched.Outcome) ([]vexplore.Finding, string, bool)) {
 		var got []int
 		var phase string
 		var nextAfterStop, nextAfterClose bool
 		var errAfter error
 		var ended bool // Next returned false before the stop was issued
+		d := &ds{g: g, yield: true, stallAt: stall}
+		secondThread := stop == stopCancelOther || stop == stopCloseOther || stop == stopCancelGrand
 		main := func() {
-			d := &ds{g: g, yield: true}
 			if stop == stopDSError {
 				d.failAt = k + 1
 			}
-			ctx, cancel := vsched.WithCancel(context.Background())
+			var ctx context.Context
+			var cancel, cancelRoot context.CancelFunc
+			if stop == stopCancelGrand {
+				var root context.Context
+				root, cancelRoot = vsched.WithCancel(context.Background())
+				ctx, cancel = vsched.WithCancel(root)
+			} else {
+				ctx, cancel = vsched.WithCancel(context.Background())
+			}
+			if stop == stopPreCancelled {
+				cancel()
+			}
 			o := annotate.NewChildFirstOrdering(ctx, relIDs(g, req), d)
-			if stop == stopCancelOther {
+			switch stop {
+			case stopCancelOther:
 				vsched.GoNamed("canceller", func() { cancel() })
+			case stopCancelGrand:
+				vsched.GoNamed("canceller", func() { cancelRoot() })
+			case stopCloseOther:
+				vsched.GoNamed("closer", func() {
+					o.Close()
+					d.closed = true
+				})
 			}
 			limit := k
-			if stop == stopCancelOther || stop == stopDSError {
+			if secondThread || stop == stopDSError {
 				limit = 1 << 20 // drain until it ends by itself
 			}
 			phase = "scanning"
@@ -288,7 +643,7 @@ func stopScenario(gname string, g graph, req []int, k, stop, bound int) vexplore
 					ended = true
 					break
 				}
-				got = append(got, int(int64(o.RelationID())-g.Off))
+				got = append(got, g.intern(int64(o.RelationID())))
 				if len(got) > 50 {
 					break
 				}
@@ -297,6 +652,7 @@ func stopScenario(gname string, g graph, req []int, k, stop, bound int) vexplore
 			switch stop {
 			case stopClose:
 				o.Close()
+				d.closed = true
 			case stopCancelSelf:
 				cancel()
 			}
@@ -305,6 +661,7 @@ func stopScenario(gname string, g graph, req []int, k, stop, bound int) vexplore
 			errAfter = o.Err()
 			phase = "closing"
 			o.Close()
+			d.closed = true
 			phase = "closed"
 			nextAfterClose = o.Next()
 			cancel()
@@ -312,55 +669,50 @@ func stopScenario(gname string, g graph, req []int, k, stop, bound int) vexplore
 		check := func(out *vsched.Outcome) ([]vexplore.Finding, string, bool) {
 			var fs []vexplore.Finding
 			add := func(k, m string) { fs = append(fs, vexplore.Finding{Key: "stop/" + k + "/" + stopNames[stop], Msg: m}) }
-			nonvac := !ended && len(got) == k && (stop == stopClose || stop == stopCancelSelf)
-			if stop == stopCancelOther || stop == stopDSError {
+			stopBySelf := stop == stopClose || stop == stopCancelSelf || stop == stopPreCancelled
+			nonvac := !ended && len(got) == k && stopBySelf
+			if secondThread || stop == stopDSError {
 				nonvac = true
 			}
 			if out.Kind != "ok" {
 				add(out.Kind, fmt.Sprintf("execution ended in %s while %s: %s", out.Kind, phase, out.Detail))
 				return fs, "", nonvac
 			}
-			// what was emitted before the stop is a prefix of a legal emission
-			seen := map[int]bool{}
-			for _, id := range got {
-				if seen[id] {
-					add("emitted-twice", fmt.Sprintf("id %d twice in %v", id, got))
-				}
-				seen[id] = true
-				if _, has := g.Versions[id]; !has {
-					add("emitted-without-history", fmt.Sprintf("id %d in %v", id, got))
-				}
+			// what was emitted before the stop is a prefix of a legal emission; it is
+			// a complete one when Next returned false and nothing had gone wrong:
+			// for the consumer's own stops "ended" means the stop came after the end,
+			// for the others Err() == nil afterwards means neither cancellation nor a
+			// datasource error had happened when the iteration ended
+			complete := ended && (stop == stopClose || stop == stopCancelSelf || errAfter == nil) && len(got) <= 50
+			if kk, m := checkPrefix(g, req, got, complete); kk != "" {
+				add(kk, m)
 			}
-			if g.acyclic() {
-				pos := map[int]int{}
-				for i, id := range got {
-					pos[id] = i
-				}
-				for _, id := range got {
-					for _, y := range sortedKeys(g.reach(id)) {
-						if p, ok := pos[y]; !ok || p > pos[id] {
-							add("child-after-parent", fmt.Sprintf("%d emitted before its descendant %d: %v", id, y, got))
-						}
-					}
-				}
-			}
-			if nextAfterStop && (stop == stopClose || stop == stopCancelSelf) {
+			if nextAfterStop && stopBySelf {
 				add("next-true-after-stop", "Next returned true after "+stopNames[stop])
+			}
+			if nextAfterStop && !stopBySelf && ended {
+				add("next-true-after-end", "Next returned true after it had returned false")
 			}
 			if nextAfterClose {
 				add("next-true-after-close", "Next returned true after Close")
 			}
+			if d.late > 0 {
+				add("datasource-call-after-close", fmt.Sprintf("%d datasource call(s) arrived after a Close call had returned: the walker goroutine had not ended", d.late))
+			}
 			switch stop {
-			case stopClose, stopCancelSelf:
+			case stopClose, stopCancelSelf, stopPreCancelled:
 				if errAfter == nil {
 					add("err-nil-after-stop", "Err() is nil after "+stopNames[stop])
 				}
 			case stopDSError:
-				full := len(got) // the walk may have completed before call k+1 ever happened
-				_ = full
-				if errAfter == nil && !ended {
-					add("err-nil-after-error", "Err() is nil although the datasource failed")
+				// (the drain only stops when Next returns false: whether the failing
+				// call happened is read off the datasource, not off "ended")
+				if errAfter == nil && d.calls >= d.failAt {
+					add("err-nil-after-error", fmt.Sprintf("Err() is nil although datasource call %d failed", d.failAt))
 				}
+			}
+			if stall != 0 && d.calls >= stall && errAfter == nil {
+				add("err-nil-after-stop", "Err() is nil although a datasource call was ended by the cancellation")
 			}
 			return fs, fmt.Sprintf("%v|%v|%v", got, errAfter, ended), nonvac
 		}
@@ -470,13 +822,183 @@ func requestLists(n int, maxLen int) [][]int {
 	return out
 }
 
+// histories4: the menu of the n = 4 family: no history, or one version over every
+// member subset of at most maxDeg ids.
+func histories4(n, maxDeg int) [][][]int {
+	out := [][][]int{nil}
+	for _, a := range subsets(n) {
+		if len(a) <= maxDeg {
+			out = append(out, [][]int{a})
+		}
+	}
+	return out
+}
+
+func graph4At(n, maxDeg, idx int) graph {
+	g := graph{N: n, Versions: map[int][][]int{}}
+	hs := histories4(n, maxDeg)
+	for id := 1; id <= n; id++ {
+		h := hs[idx%len(hs)]
+		idx /= len(hs)
+		if h != nil {
+			g.Versions[id] = h
+		}
+	}
+	return g
+}
+
+func seq(from, to int) []int {
+	var out []int
+	if from <= to {
+		for i := from; i <= to; i++ {
+			out = append(out, i)
+		}
+	} else {
+		for i := from; i >= to; i-- {
+			out = append(out, i)
+		}
+	}
+	return out
+}
+
+// shape: one larger graph with its request lists (family "drain-shapes").
+type shape struct {
+	g    graph
+	reqs [][]int
+}
+
+// shapes: graphs beyond the exhaustive bound, each chosen for one boundary: depth
+// around the capacity of the walker's path slice (100), fan-out, number of
+// versions, length of the request list, cycles entered at every point.
+func shapes(quick bool) []shape {
+	var out []shape
+	add := func(label string, n int, vs map[int][][]int, reqs ...[]int) {
+		out = append(out, shape{graph{N: n, Versions: vs, Label: fmt.Sprintf("%s(%d ids)", label, n)}, reqs})
+	}
+	chain := func(l int) map[int][][]int {
+		vs := map[int][][]int{}
+		for i := 1; i < l; i++ {
+			vs[i] = [][]int{{i + 1}}
+		}
+		vs[l] = [][]int{{}}
+		return vs
+	}
+	lens := []int{4, 5, 8, 99, 100, 101, 102, 103}
+	if !quick {
+		lens = append(lens, 150, 257, 1000)
+	}
+	for _, l := range lens {
+		add("chain", l, chain(l), []int{1}, seq(l, 1), seq(1, l), []int{l/2 + 1, 1}, []int{2, 1, 9, l})
+		// the same chain closed into a cycle at its head, its middle and its tail
+		for _, to := range []int{1, l/2 + 1, l} {
+			vs := chain(l)
+			vs[l] = [][]int{{to}}
+			out = append(out, shape{graph{N: l, Versions: vs, Label: fmt.Sprintf("chain(%d ids) whose last id points back at %d", l, to)},
+				[][]int{{1}, {to}, {l}, {l/2 + 1, 1}, seq(l, 1)}})
+		}
+	}
+	// a ring of 6 entered at every point, with a tail hanging off it and an entry from outside
+	{
+		vs := map[int][][]int{}
+		for i := 1; i <= 6; i++ {
+			vs[i] = [][]int{{i%6 + 1}}
+		}
+		vs[3] = [][]int{{4, 7}}
+		vs[7] = [][]int{{8}}
+		vs[8] = [][]int{{}}
+		vs[9] = [][]int{{5}}
+		var reqs [][]int
+		for i := 1; i <= 9; i++ {
+			reqs = append(reqs, []int{i}, []int{i, i%9 + 1}, []int{9, i})
+		}
+		add("ring of 6 with tail 3-7-8 and entry 9-5", 9, vs, reqs...)
+	}
+	// complete binary tree of depth 3
+	{
+		vs := map[int][][]int{}
+		for i := 1; i <= 15; i++ {
+			if 2*i+1 <= 15 {
+				vs[i] = [][]int{{2 * i, 2*i + 1}}
+			} else {
+				vs[i] = [][]int{{}}
+			}
+		}
+		add("binary tree", 15, vs, []int{1}, []int{8, 1}, []int{3, 2, 1}, seq(1, 15), seq(15, 1))
+	}
+	// ladder of diamonds: shared grand-children at every level
+	{
+		vs := map[int][][]int{}
+		for b := 1; b <= 7; b += 3 {
+			vs[b] = [][]int{{b + 1, b + 2}}
+			vs[b+1] = [][]int{{b + 3}}
+			vs[b+2] = [][]int{{b + 3}, {b + 3, b + 1}}
+		}
+		vs[10] = [][]int{{}}
+		add("ladder of three diamonds", 10, vs, []int{1}, []int{4, 1}, []int{10, 7, 4, 1}, []int{3, 2}, seq(1, 10), seq(10, 1))
+	}
+	// complete DAG and complete digraph (every path / every cycle at once)
+	for _, n := range []int{5, 7} {
+		dag, full := map[int][][]int{}, map[int][][]int{}
+		for i := 1; i <= n; i++ {
+			dag[i] = [][]int{{}}
+			if i < n {
+				dag[i] = [][]int{seq(i+1, n)}
+			}
+			full[i] = [][]int{seq(1, n), seq(n, 1)}
+		}
+		add("complete DAG", n, dag, []int{1}, seq(1, n), seq(n, 1), []int{n/2 + 1, 1})
+		add("complete digraph, two versions", n, full, []int{1}, []int{n}, seq(1, n), seq(n, 1))
+	}
+	// fan-out: one relation with 300 different children (half of them without
+	// history), and with the same child 300 times
+	{
+		vs := map[int][][]int{1: {seq(2, 301)}}
+		for i := 2; i <= 301; i += 2 {
+			vs[i] = [][]int{{}}
+		}
+		add("fan-out 300, odd children without history", 301, vs, []int{1}, []int{301, 300, 1}, seq(301, 1))
+		same := make([]int, 300)
+		for i := range same {
+			same[i] = 2
+		}
+		add("one child 300 times", 2, map[int][][]int{1: {same, same}, 2: {{}}}, []int{1}, []int{2, 1})
+	}
+	// many versions: the same child in each of 60 versions; a different child in each
+	{
+		v1, v2 := [][]int{}, [][]int{}
+		vs2 := map[int][][]int{}
+		for i := 0; i < 60; i++ {
+			v1 = append(v1, []int{2})
+			v2 = append(v2, []int{i + 2})
+			vs2[i+2] = [][]int{{}}
+		}
+		add("60 versions with the same child", 2, map[int][][]int{1: v1, 2: {{}, {}, {}}}, []int{1}, []int{2, 1})
+		vs2[1] = v2
+		vs2[61] = [][]int{{2}}
+		add("60 versions with 60 different children", 61, vs2, []int{1}, []int{61, 1}, []int{31, 1, 2})
+	}
+	// very long request lists over a small graph: 1000 ids cycling through known,
+	// unknown and repeated ids; 600 ids none of which has a history
+	{
+		long := make([]int, 0, 1000)
+		for i := 0; i < 1000; i++ {
+			long = append(long, []int{3, 9, 1, 1, 2, 8, 3}[i%7])
+		}
+		add("small chain", 3, chain(3), long, append(seq(9, 300), long...))
+		add("nothing has a history", 3, map[int][][]int{}, seq(1, 600), []int{1}, []int{})
+	}
+	return out
+}
+
 func main() {
 	kit.Main("C14", "model_checking", func(r *kit.Run) {
-		r.Rule("(B) every relation graph on n ids (each id: no history, one version over every member subset, id 1 also every two-version history) x request lists up to the tier's length, plus a typed family (id 1 with two versions over every ordered list of <= 2 way/relation members on refs 1..3), drained under the default schedule; " +
-			"(A) 7 fixed graphs x every stop point k x {Close, cancel from consumer, cancel from a second thread, datasource error at call k+1} x every schedule with <= D deviations, both priority configurations; " +
+		r.Rule("(B) every relation graph on 3 ids (each id: no history, one version over every member subset, id 1 also every two-version history) x request lists up to the tier's length (plus all orders of the three ids), every drain followed by Next twice, Close twice and Next again; every 7th graph repeated per class: ids at the boundaries of 31/32/40/53/63 bits (positive and negative) with Err() before every Next, members descending / twice / of seven non-relation types with equal refs / a relation member with ref 0 / request id 0, invisible versions, ids answered with an empty history, a datasource error at call 1..4, three orderings on one datasource and one parent context; " +
+			"every graph on 4 ids with out-degree <= 2 (thorough: every out-degree) x 2-3 request lists; larger shapes (chains of 4..103 ids around the walker's path capacity, closed into cycles at three points; ring entered everywhere; tree; diamond ladder; complete DAG / digraph; fan-out 300; 60 versions; request lists of 600-1300 ids); a typed family (id 1 with two versions over every ordered list of <= 2 way/relation members on refs 1..3), drained under the default schedule; " +
+			"(A) 11 fixed graphs x every stop point k x {Close, cancel from consumer, cancel from a second thread, datasource error at call k+1, Close from a second thread, cancel of the grand-parent context from a second thread, context cancelled before New} and {cancel, Close from a second thread} x a datasource whose call j blocks until its context is cancelled, x every schedule with <= D deviations, both priority configurations; " +
 			"distinct_nontrivial counts distinct complete operation sequences plus distinct observed outcomes; states = execution-tree nodes, transitions = visible operations executed")
 		r.Assume("annotate/order.go as rewritten by tools/vinst (channel ops, select, go, WaitGroup, context) behaves like the original under a sequentially consistent scheduler")
 		r.Assume("data races on ChildFirstOrdering.err/CompletedIndex are recorded as information only: the property does not claim race freedom")
+		r.Assume("not judged because the property text does not decide it: whether an id whose datasource answer is an empty history with a nil error is emitted (drains_with_unjudged_emission_of_empty_history_ids counts the drains; everything else of those drains is judged); a relation with id 0 that HAS a history (0 is only used as an id without history); the values of CompletedIndex, of RelationID() before the first and after the last successful Next, of Err() after Close of a completed walk; how often the datasource is asked")
 		var scs []vexplore.Scenario
 		n, twoFor, reqLen := 3, 1, 2
 		dA := 4
@@ -486,6 +1008,14 @@ func main() {
 		}
 		reqs := requestLists(n, reqLen)
 		reqs = append(reqs, []int{1, 2, 3}, []int{3, 2, 1}, []int{1, 1, 2}, []int{2, 9, 1}, []int{3, 3, 3})
+		// the other orders of the three ids
+		reqs = append(reqs, []int{1, 3, 2}, []int{2, 1, 3}, []int{2, 3, 1}, []int{3, 1, 2})
+		// the classes below use smaller menus (classReqs has a nil list next to the
+		// empty one and a list longer than the graph)
+		classReqs := [][]int{{}, nil, {1}, {3}, {9}, {3, 1}, {1, 2, 3}, {3, 2, 1}, {2, 9, 1, 1, 3}, {3, 9, 2, 2, 1, 3, 9, 1}}
+		someReqs := [][]int{{1}, {3, 1}, {2, 9, 1}, {3, 2, 1}}
+		posOffs := []int64{math.MaxInt64 - 9, 1<<31 - 2, 1<<32 - 2, 1<<40 - 2, 1<<53 - 2}
+		negOffs := []int64{math.MinInt64, -(1 << 31) - 2, -(1 << 40) - 2}
 		// the drain family is produced lazily, 400 graphs per worker job
 		ngraphs := graphCount(n, twoFor)
 		var gens []vexplore.Generator
@@ -496,33 +1026,92 @@ func main() {
 				hi = ngraphs
 			}
 			gens = append(gens, vexplore.Generator{Name: fmt.Sprintf("drain graphs %d..%d", lo, hi-1), Gen: func(yield func(*vexplore.Scenario) bool) {
-				for gi := lo; gi < hi; gi++ {
-					g := graphAt(n, twoFor, gi)
-					for _, rq := range reqs {
-						sc := drainScenario(g, rq)
+				all := func(g graph, family string, rqs [][]int, opt drainOpt) bool {
+					for _, rq := range rqs {
+						sc := drainScenarioOpt(g, rq, opt)
+						sc.Family = family
+						if len(g.Empty) > 0 {
+							r.Add("drains_with_unjudged_emission_of_empty_history_ids", 1)
+						}
 						if !yield(&sc) {
-							return
+							return false
 						}
 					}
-					if gi%7 == 5 {
+					return true
+				}
+				for gi := lo; gi < hi; gi++ {
+					g := graphAt(n, twoFor, gi)
+					if !all(g, "drain", reqs, drainOpt{}) {
+						return
+					}
+					sub := gi / 7
+					v := g
+					switch gi % 7 {
+					case 5:
 						// ... and with negative ids (placeholder ids of editors)
-						g.Off = -1000
-						for _, rq := range reqs {
-							sc := drainScenario(g, rq)
-							sc.Family = "drain-negative-ids"
+						v.Off = -1000
+						if !all(v, "drain-negative-ids", reqs, drainOpt{}) {
+							return
+						}
+					case 3:
+						// the same graph with ids beyond 40 bits
+						v.Off = 1<<40 + 1<<35
+						if !all(v, "drain-big-ids", reqs, drainOpt{}) {
+							return
+						}
+					case 0:
+						// ids straddling 2^31, 2^32, 2^40, 2^53 and ending at the largest
+						// int64; the consumer also asks Err() before every Next
+						v.Off = posOffs[sub%len(posOffs)]
+						if !all(v, "drain-boundary-ids", classReqs, drainOpt{errEvery: true}) {
+							return
+						}
+					case 6:
+						// the negative counterparts, starting at the smallest int64 + 1
+						v.Off = negOffs[sub%len(negOffs)]
+						if !all(v, "drain-boundary-ids", classReqs, drainOpt{errEvery: sub%2 == 0}) {
+							return
+						}
+						// three orderings on one datasource and one parent context
+						for i, rq := range someReqs {
+							sc := twinScenario(g, rq, someReqs[(i+sub)%len(someReqs)])
 							if !yield(&sc) {
 								return
 							}
 						}
-						g.Off = 0
-					}
-					if gi%7 == 3 {
-						// the same graph with ids beyond 40 bits
-						g.Off = 1<<40 + 1<<35
-						for _, rq := range reqs {
-							sc := drainScenario(g, rq)
-							sc.Family = "drain-big-ids"
-							if !yield(&sc) {
+					case 1:
+						// member lists: descending, (every other graph) twice, with
+						// non-relation members of seven types whose refs equal relation
+						// ids, with a relation member of ref 0; the unknown id 9 of the
+						// request lists is relation id 0
+						v.Rev, v.Odd, v.Zero = true, true, 9
+						v.Dup = sub%2 == 0
+						if !all(v, "drain-member-lists", classReqs, drainOpt{}) {
+							return
+						}
+					case 2:
+						if sub%4 == 3 {
+							// every id without history (and the unknown id 9) is answered
+							// with an empty history and a nil error
+							v.Empty = map[int]bool{9: true}
+							for id := 1; id <= n; id++ {
+								if _, has := g.Versions[id]; !has {
+									v.Empty[id] = true
+								}
+							}
+							if !all(v, "drain-empty-history", classReqs, drainOpt{}) {
+								return
+							}
+						} else {
+							v.Inv = sub%4 + 1
+							if !all(v, "drain-invisible-versions", classReqs, drainOpt{}) {
+								return
+							}
+						}
+					case 4:
+						// a datasource error (not "not found") at call 1..4
+						for at := 1; at <= 4; at++ {
+							if !all(g, "drain-datasource-error", someReqs, drainOpt{failAt: at, failWithData: (sub+at)%2 == 0}) {
 								return
 							}
 						}
@@ -530,6 +1119,70 @@ func main() {
 				}
 			}})
 		}
+		// graphs on 4 ids: out-degree <= 2 in the quick tier
+		maxDeg := 2
+		if !r.Quick() {
+			maxDeg = 4
+		}
+		n4 := 1
+		for i := 0; i < 4; i++ {
+			n4 *= len(histories4(4, maxDeg))
+		}
+		reqs4 := [][]int{{1}, {4, 3, 2, 1}, {2, 4}}
+		for lo := 0; lo < n4; lo += 1500 {
+			lo := lo
+			hi := lo + 1500
+			if hi > n4 {
+				hi = n4
+			}
+			gens = append(gens, vexplore.Generator{Name: fmt.Sprintf("drain 4-id graphs %d..%d", lo, hi-1), Gen: func(yield func(*vexplore.Scenario) bool) {
+				for gi := lo; gi < hi; gi++ {
+					g := graph4At(4, maxDeg, gi)
+					for ri, rq := range reqs4 {
+						if ri == 2 && gi%3 != 0 {
+							continue // the third list on every third graph (quick-tier time budget)
+						}
+						sc := drainScenario(g, rq)
+						sc.Family = "drain-4-ids"
+						if !yield(&sc) {
+							return
+						}
+					}
+				}
+			}})
+		}
+		r.Set("graphs_4_ids", n4)
+		// larger shapes
+		shp := shapes(r.Quick())
+		nshape := 0
+		for i := range shp {
+			sh := shp[i]
+			nshape += len(sh.reqs)
+			gens = append(gens, vexplore.Generator{Name: "shape " + sh.g.String(), Gen: func(yield func(*vexplore.Scenario) bool) {
+				for j, rq := range sh.reqs {
+					sc := drainScenarioOpt(sh.g, rq, drainOpt{errEvery: j%2 == 1})
+					sc.Family = "drain-shapes"
+					sc.MaxSteps = 200000
+					if !yield(&sc) {
+						return
+					}
+					if j == 0 {
+						// the first request list also on a datasource that fails late, and
+						// with the member-list variations
+						e := drainScenarioOpt(sh.g, rq, drainOpt{failAt: sh.g.N/2 + 2})
+						e.Family, e.MaxSteps = "drain-shapes", 200000
+						v := sh.g
+						v.Rev, v.Dup, v.Inv = true, true, 1
+						w := drainScenario(v, rq)
+						w.Family, w.MaxSteps = "drain-shapes", 200000
+						if !yield(&e) || !yield(&w) {
+							return
+						}
+					}
+				}
+			}})
+		}
+		r.Set("shape_drains", nshape)
 		// typed family: id 1 has two versions whose member lists are every ordered
 		// list of <= 2 members over refs {1,2,3} x {way, relation}; ids 2 and 3 have
 		// one version over every relation subset (or no history). A member that keeps
@@ -611,27 +1264,50 @@ func main() {
 			{"missing-child", graph{N: 3, Versions: map[int][][]int{1: {{2, 3}}, 3: {{}}}}, []int{1, 2}},
 			{"two-versions", graph{N: 3, Versions: map[int][][]int{1: {{2}, {3}}, 2: {{}}, 3: {{}}}}, []int{3, 1}},
 			{"flat", graph{N: 3, Versions: map[int][][]int{1: {{}}, 2: {{}}, 3: {{}}}}, []int{1, 2, 3}},
+			// a cycle entered from outside after it was walked from inside
+			{"cycle-entered", graph{N: 3, Versions: map[int][][]int{1: {{2}}, 2: {{3}}, 3: {{2}}}}, []int{3, 1}},
+			// a member twice in one version and again in the next, requested twice
+			{"repeats", graph{N: 2, Versions: map[int][][]int{1: {{2, 2}, {2}}, 2: {{}}}}, []int{1, 2, 1}},
+			// nothing to emit: the walker ends without a single send
+			{"no-history", graph{N: 1, Versions: map[int][][]int{}}, []int{9, 1}},
+			{"empty-request", graph{N: 1, Versions: map[int][][]int{1: {{}}}}, []int{}},
 		}
 		nStop := 0
-		for _, f := range fixed {
+		addStop := func(sc vexplore.Scenario, swBound int) {
+			scs = append(scs, sc)
+			nStop++
+			// the same history in switch mode (single context switches, no demotion)
+			sw := sc
+			sw.Bound = swBound
+			sw.SwitchMode = true
+			sw.Name += " switch-mode"
+			sw.Family += " switch-mode"
+			scs = append(scs, sw)
+		}
+		for fi, f := range fixed {
 			total := 0
 			for range f.g.Versions {
 				total++
 			}
-			for stop := 0; stop < 4; stop++ {
+			for stop := 0; stop <= stopPreCancelled; stop++ {
 				maxK := total + 1
-				if stop == stopCancelOther {
-					maxK = 0 // the canceller thread is placed everywhere by the explorer
+				if stop == stopCancelOther || stop == stopCloseOther || stop == stopCancelGrand || stop == stopPreCancelled {
+					maxK = 0 // the second thread is placed everywhere by the explorer
+				}
+				if fi >= 7 && (stop == stopCancelSelf || stop == stopDSError) && total > 0 {
+					continue // the four later graphs: Close and the second-thread stops
 				}
 				for k := 0; k <= maxK; k++ {
-					scs = append(scs, stopScenario(f.name, f.g, f.req, k, stop, dA))
-					nStop++
-					// the same history in switch mode (single context switches, no demotion)
-					sw := stopScenario(f.name, f.g, f.req, k, stop, 2)
-					sw.SwitchMode = true
-					sw.Name += " switch-mode"
-					sw.Family += " switch-mode"
-					scs = append(scs, sw)
+					addStop(stopScenario(f.name, f.g, f.req, k, stop, dA, 0), 2)
+				}
+			}
+			// a datasource call that blocks until its context is cancelled, ended by a
+			// second thread's cancel / Close
+			if fi < 7 || total == 0 {
+				for _, stop := range []int{stopCancelOther, stopCloseOther} {
+					for j := 1; j <= total+1; j++ {
+						addStop(stopScenario(f.name, f.g, f.req, 0, stop, dA, j), 2)
+					}
 				}
 			}
 		}
